@@ -131,6 +131,16 @@ def _extract_arm(arm):
 def _extract_block(blk):
     """Cut one whole block expression (e.g. `match .. { .. }`) out of a function by its header regex."""
     src = read(os.path.join(REPO, blk["file"]))
+    if "fn" not in blk:
+        # a block that is not inside a Rust `fn` item (a semantic action of the LALRPOP grammar): the region is the block
+        # that follows the `after` anchor (the production's header)
+        masked = rustscan.mask(src)
+        try:
+            _, lo, hi = rustscan.find_block(src, masked, blk["after"])
+            a, ob, cb = rustscan.find_block(src, masked, blk["header"], lo, hi)
+        except rustscan.ScanError:
+            raise Broken("block %r after %r not found in %s" % (blk["header"], blk["after"], blk["file"]))
+        return src[a:cb + 1], src.count("\n", 0, a) + 1
     try:
         f = rustscan.find_fn(src, blk["fn"], within=blk.get("within"), nth=blk.get("nth", 0))
     except rustscan.ScanError as e:
